@@ -77,6 +77,67 @@ def _tail_returns(stmts):
     return 0
 
 
+def _ends_in_return(stmts):
+    """every path through the statement list ends in a return / raise (it never falls off its end)"""
+    if not stmts:
+        return False
+    last = stmts[-1]
+    if isinstance(last, (ast.Return, ast.Raise)):
+        return True
+    if isinstance(last, ast.If):
+        return _ends_in_return(last.body) and _ends_in_return(last.orelse)
+    if isinstance(last, ast.With):
+        return _ends_in_return(last.body)
+    if isinstance(last, ast.Try) and not last.finalbody:
+        main = last.orelse if last.orelse else last.body
+        return _ends_in_return(main) and all(_ends_in_return(h.body) for h in last.handlers)
+    return False
+
+
+def _sink(stmts):
+    """`if c: ...return` followed by more statements  ==  `if c: ...return  else: <the rest>`;
+    `try: A except E: ...return` followed by more  ==  `try: A except E: ...return  else: <the rest>` (A contains no return).
+    Brings early returns into tail position.  Works on a copy."""
+    out = []
+    i = 0
+    while i < len(stmts):
+        st = stmts[i]
+        rest = stmts[i + 1:]
+        if isinstance(st, ast.If):
+            st.body = _sink(st.body)
+            st.orelse = _sink(st.orelse)
+            if rest and not st.orelse and _ends_in_return(st.body):
+                st.orelse = _sink(rest)
+                out.append(st)
+                return out
+            if rest and st.orelse and _ends_in_return(st.orelse) and not _ends_in_return(st.body):
+                st.body = st.body + _sink(rest)
+                out.append(st)
+                return out
+        elif isinstance(st, ast.Try) and not st.finalbody:
+            st.body = _sink(st.body)
+            for h in st.handlers:
+                h.body = _sink(h.body)
+            st.orelse = _sink(st.orelse)
+            body_has_return = any(isinstance(x, ast.Return) for s_ in st.body for x in ast.walk(s_))
+            if rest and st.handlers and all(_ends_in_return(h.body) for h in st.handlers) and not body_has_return and not _ends_in_return(st.orelse or [ast.Pass()]):
+                st.orelse = st.orelse + _sink(rest)
+                out.append(st)
+                return out
+        elif isinstance(st, ast.With):
+            st.body = _sink(st.body)
+        out.append(st)
+        i += 1
+    return out
+
+
+def _prepared_body(fn):
+    body = [copy.deepcopy(s) for s in fn.body]
+    if body and isinstance(body[0], ast.Expr) and isinstance(body[0].value, ast.Constant) and isinstance(body[0].value.value, str):
+        body = body[1:]
+    return _sink(body) or [ast.copy_location(ast.Pass(), fn)]
+
+
 def _eligible(fn, decorators_ok=("staticmethod",)):
     if not isinstance(fn, ast.FunctionDef):
         return False
@@ -99,7 +160,7 @@ def _eligible(fn, decorators_ok=("staticmethod",)):
     if any(isinstance(x, (ast.FunctionDef, ast.AsyncFunctionDef, ast.ClassDef)) for x in own):
         return False  # helpers defining closures are left alone
     n_ret = sum(1 for x in own if isinstance(x, ast.Return))
-    t = _tail_returns([s for s in fn.body])
+    t = _tail_returns(_prepared_body(fn))
     if t is None or t != n_ret:
         return False
     # not (directly) recursive
@@ -140,42 +201,35 @@ class _Rename(ast.NodeTransformer):
         return node
 
 
-def _convert_tail(stmts, ret_name, loc):
-    """turn tail `return E` into `<ret_name> = E`; add `<ret_name> = None` where the list can fall off its end"""
-    def assign(value, at):
-        v = value if value is not None else ast.Constant(value=None)
-        a = ast.Assign(targets=[ast.Name(id=ret_name, ctx=ast.Store())], value=v)
-        ast.copy_location(a, at)
-        ast.copy_location(a.targets[0], at)
-        if value is None:
-            ast.copy_location(v, at)
-        return a
+def _convert_tail(stmts, make, loc):
+    """turn every tail `return E` into make(E, at); add make(None, at) where the list can fall off its end"""
     if not stmts:
-        return [assign(None, loc)]
+        return [make(None, loc)]
     last = stmts[-1]
     if isinstance(last, ast.Return):
-        return stmts[:-1] + [assign(last.value, last)]
+        return stmts[:-1] + [make(last.value, last)]
+    if isinstance(last, ast.Raise):
+        return stmts
     if isinstance(last, ast.If):
-        last.body = _convert_tail(last.body, ret_name, last)
-        last.orelse = _convert_tail(last.orelse, ret_name, last)
+        last.body = _convert_tail(last.body, make, last)
+        last.orelse = _convert_tail(last.orelse, make, last)
         return stmts
     if isinstance(last, ast.With):
-        has = any(isinstance(x, ast.Return) for x in last.body[-1:] for x in [x]) or _tail_returns(last.body)
-        if has:
-            last.body = _convert_tail(last.body, ret_name, last)
+        if _tail_returns(last.body):
+            last.body = _convert_tail(last.body, make, last)
             return stmts
-        return stmts + [assign(None, last)]
+        return stmts + [make(None, last)]
     if isinstance(last, ast.Try):
         if _tail_returns([last]):
             if last.orelse:
-                last.orelse = _convert_tail(last.orelse, ret_name, last)
+                last.orelse = _convert_tail(last.orelse, make, last)
             else:
-                last.body = _convert_tail(last.body, ret_name, last)
+                last.body = _convert_tail(last.body, make, last)
             for h in last.handlers:
-                h.body = _convert_tail(h.body, ret_name, last)
+                h.body = _convert_tail(h.body, make, last)
             return stmts
-        return stmts + [assign(None, last)]
-    return stmts + [assign(None, last)]
+        return stmts + [make(None, last)]
+    return stmts + [make(None, last)]
 
 
 class Inliner:
@@ -302,35 +356,38 @@ class Inliner:
         for l in locals_:
             if l not in mapping:
                 mapping[l] = l + suf
-        body = [copy.deepcopy(s) for s in helper.body]
-        if body and isinstance(body[0], ast.Expr) and isinstance(body[0].value, ast.Constant) and isinstance(body[0].value.value, str):
-            body = body[1:]
+        body = _prepared_body(helper)
         ren = _Rename(mapping)
         body = [ren.visit(s) for s in body]
         ret = "_ret" + suf
+
+        def none_at(at):
+            return ast.copy_location(ast.Constant(value=None), at)
         plain = isinstance(st, ast.Expr) and st.value is call
-        body = _convert_tail(body, ret, call)
-        out = prologue + body
+        whole_assign = isinstance(st, ast.Assign) and st.value is call
+        whole_return = isinstance(st, ast.Return) and st.value is call
         if plain:
-            # result unused: drop `_ret = <constant / name>` bookkeeping, keep assignments whose value has effects
-            def prune(stmts):
-                keep = []
-                for s_ in stmts:
-                    if isinstance(s_, ast.Assign) and len(s_.targets) == 1 and isinstance(s_.targets[0], ast.Name) and s_.targets[0].id == ret \
-                            and isinstance(s_.value, (ast.Constant, ast.Name)):
-                        continue
-                    for fld in ("body", "orelse", "finalbody"):
-                        v = getattr(s_, fld, None)
-                        if isinstance(v, list) and v and isinstance(v[0], ast.stmt):
-                            nv = prune(v)
-                            setattr(s_, fld, nv if nv or fld != "body" else [ast.copy_location(ast.Pass(), s_)])
-                    if isinstance(s_, ast.Try):
-                        for h in s_.handlers:
-                            h.body = prune(h.body) or [ast.copy_location(ast.Pass(), s_)]
-                    keep.append(s_)
-                return keep
-            return prune(out) or [ast.copy_location(ast.Pass(), call)]
-        # replace the call by the result name
+            def make(v, at):
+                if v is None or isinstance(v, (ast.Constant, ast.Name)):
+                    return ast.copy_location(ast.Pass(), at)
+                return ast.copy_location(ast.Expr(value=v), at)
+            return prologue + _convert_tail(body, make, call)
+        if whole_assign:
+            def make(v, at):
+                a_ = ast.Assign(targets=[copy.deepcopy(t) for t in st.targets], value=v if v is not None else none_at(at))
+                return ast.copy_location(a_, at)
+            return prologue + _convert_tail(body, make, call)
+        if whole_return:
+            def make(v, at):
+                return ast.copy_location(ast.Return(value=v if v is not None else none_at(at)), at)
+            return prologue + _convert_tail(body, make, call)
+
+        def make(v, at):
+            a_ = ast.Assign(targets=[ast.Name(id=ret, ctx=ast.Store())], value=v if v is not None else none_at(at))
+            ast.copy_location(a_.targets[0], at)
+            return ast.copy_location(a_, at)
+        out = prologue + _convert_tail(body, make, call)
+
         class Rep(ast.NodeTransformer):
             def visit_Call(self, node):
                 if node is call:
